@@ -154,6 +154,10 @@ claims = {
             "Kill = stop before a file-system operation of the litestream process; WAL-cursor resumption after the restart is C04.", "DESIGN.md 5 (C03)"),
     "C02": ("The real DB.SnapshotReader (snapshotPosition, snapshotWALEndOffset, snapshotReader, pageMap with its byte budget, writeLTXFromDB) runs on a database file and a WAL generated from an abstract history with symbolic page numbers and images: the snapshot published as (1..pos) holds every page once, has the size at pos, and every page image is the one at position pos - nothing committed later in the same WAL generation, nothing from a generation the application started after the last sync, nothing from an open transaction - or the call fails. MaxLTX returns the highest parsing name whatever else is in the directory; pageMap cuts only at commit frames (C09's budget harness); each level-0 file is numbered pos+1 and holds committed pages only (C01's sync harness).",
             "E-WAL is an assumption about SQLite. H8 (stale end offset after an application WAL restart) was found here and fixed.", "DESIGN.md 5 (C02), 7 (H8)"),
+    "C04": ("The real verifyWithExecutor with lastPageMatch, detectFullCheckpoint, readWALHeader, readWALFileAt and the WAL reader decides continuity on WAL images generated from every abstract history within the bound (replicated frames, unseen frames, up to two restarts, truncation), with symbolic salts, page numbers and images, for a fresh process, the same process, and a DB object carried through the real Close and Open: whenever the answer is 'incremental', ground truth must say no committed frame is missing and the resume point must be the replicated offset or the start of the single new generation. After a local state reset the next acknowledged replica sync must have stored the new files, above everything already on the replica.",
+            "E-WAL is an assumption about SQLite (tested against real SQLite while writing DESIGN.md). Five defects were found here and repaired (H1, H2, H3 twice, H9).", "DESIGN.md 5 (C04), D.4, 7"),
+    "C01": ("Decided as a composition: VxC01Sync executes the real DB.sync (WAL reader, pageMap, writeLTXFromWAL / writeLTXFromDB, real LTX encoder) on a WAL whose frames after the cursor are symbolic (page numbers 1-4, images, commit marks, open tail) and checks the published file: numbered pos+1, holds a page iff it changed in a committed transaction of the range or lies in the growth range, with the latest committed image, header commit = last commit, synced offset = end of the last commit, synced-to-end flag exact. The other obligations are the harnesses of C04 (continuity), C09 (frame selection), C05 (acknowledgement), C14 (checkpoint step's SQL), C08/C06/C10 (restore).",
+            "The end-to-end statement is a paper composition of separately decided obligations; no single symbolic history runs through sync, checkpoint, upload and restore.", "DESIGN.md 5 (C01)"),
 }
 na_reasons = {
     "C12": "quantifies over goroutine interleavings and the Go memory model; a sequential SSA symbolic interpreter cannot soundly decide races or deadlocks and no concurrency-aware engine for Go exists in this image (DESIGN.md 6)",
@@ -386,6 +390,42 @@ props["C02"] = {
     ],
     "stubs": ["file-system model", "WAL images with checksums computed by construction", "io.Pipe buffer model", "codec model as in C06"],
     "outside": ["the atomicity of capturing the position and taking the checkpoint lock under real concurrency (C12)", "SQLite's guarantee that a commit frame closes a transaction", "multi-frame transactions in the snapshot harness (covered by the pageMap harnesses of C09)"],
+}
+
+props["C04"] = {
+    "level": "model_checking", "validate": 6,
+    "runs": [
+        run("root", "VxC04Fresh", {}, {}),
+        run("root", "VxC04SameProcess", {}, {}),
+        run("root", "VxC04Reopened", {}, {}),
+        run("root", "VxC04Reset", {}, {}),
+    ],
+    "assumptions": [
+        "E-WAL (DESIGN.md C04/D.4): a WAL generation has fixed salts (salt1 = previous + 1, salt2 random; two generations never share both); frames are only appended within a generation; a restart overwrites from offset 32 and happens only when the previous generation is fully backfilled; the file is shortened only by TRUNCATE checkpoints, journal_size_limit or deletion; stale frames of older generations stay beyond the new generation's end",
+        "observed clause (same process): the WAL can be restarted or truncated under a running litestream only while it sits on read mark 0 (a fully checkpointed WAL), at most once per read transaction, and there the next writer restarts the WAL instead of appending; so 'frames appended after a sync that ended exactly at the end of the file' and 'restart' exclude each other within a session",
+        "unobserved clause (fresh process, DB object closed and reopened): any history with up to two restarts, with or without truncation",
+        "ground truth of the assertion: a committed frame is lost iff (frames were appended after the replicated position and the WAL was restarted) or (the WAL was restarted twice); 'incremental' is acceptable only if nothing is lost and the resume point is the replicated offset (no restart) or offset 32 with the new salts (one restart, nothing appended)",
+        "histories: 1-2 replicated frames, 0-2 unseen frames, 0-2 restarts with 1-2 frames each, single-frame transactions on a 3-page database of 512-byte pages",
+    ],
+    "stubs": ["file-system model", "WAL images with checksums computed by construction; the last level-0 file is a real LTX file with the WAL bookkeeping header", "symsql and WAL-copy stand-ins for the Close/Open carry-over scenario", "ReplicaClient mock"],
+    "outside": ["anything SQLite does that E-WAL does not describe", "two generations sharing both salts", "more than two restarts / longer WALs", "the database file being replaced by another database (checkDatabaseBehindReplica's TXID comparison is covered by VxC11Baseline/VxC04Reset only for the behind case)"],
+}
+
+props["C01"] = {
+    "level": "model_checking", "validate": 6,
+    "runs": [
+        run("root", "VxC01Sync", {}, {}),
+        run("root", "VxC04SameProcess", {}, {}, note="continuity invariant in the observed scenario (shared with C04)"),
+        run("root", "VxC09PageMap", {"PS": 8, "K": 2, "_tactic": 1}, {"PS": 8, "K": 3, "_tactic": 1}, note="frame selection = SQLite's committed pages (shared with C09)"),
+        run("root", "VxC05Sync", {"N": 2, "R": 1}, {"N": 3, "R": 2}, note="acknowledgement implies stored (shared with C05)"),
+        run("root", "VxC14Checkpoint", {}, {}, note="checkpoint step: barrier transaction rolled back, read lock re-acquired (shared with C14)"),
+    ],
+    "assumptions": [
+        "C01 is decided as a composition of obligations, each by its own harness; the composition argument is on paper (DESIGN.md C01): continuity (C04) + frame selection (C09) + page set and header arithmetic of each file (VxC01Sync) + upload order and acknowledgement (C05) + restore = valid plan (C08) o compaction equivalence (C06) o verified decode (C10)",
+        "SQLite WAL contract E-WAL; growth-completeness of SQLite's own WAL frames (a transaction that grows the database writes every new page)",
+    ],
+    "stubs": ["as in the harnesses named"],
+    "outside": ["SQLite's integrity check of the restored file", "page images of a real database", "the checkpoint step's interaction with application commits between litestream's sealing sync and the checkpoint (the real checkpointWithExecutor is exercised over symsql in C14 with the WAL copying cut out; an end-to-end symbolic history through checkpoints is not built)"],
 }
 
 rewrites = [
